@@ -33,14 +33,28 @@ PLACING_SEQ = ("append", "extend", "iadd", "insert", "setitem", "setslice")
 
 
 def check(ex, info):
-    """the five clauses, recomputed from `.children` alone"""
-    from flatland.schema.base import Slot
+    """the five clauses, recomputed from `.children` alone — for EVERY tree the case keeps alive, after every step
+    whether the call returned or raised — then the failure-path clauses (G.check_rejected) and placed / removed"""
     fails = []
-    root = ex.root
+    for t, root in enumerate(ex.trees()):
+        check_tree(ex, info, root, t, fails)
+    fails.extend(G.check_rejected(ex, info))
+    check_call(ex, info, fails)
+    return fails
+
+
+def check_tree(ex, info, root, tree_no, fails):
+    """clause (a).  ALIASED elements — handed to a call while they were members of a live tree, so that two
+    containers list one object (`b.append(a[1])` does not take a[1] out of a); the property text does not say that
+    placing removes, and no parent pointer can designate two holders — are exempt together with what hangs below
+    them, until one container lists them again (Exec.heal): for them only the agreement of root / parents / path with
+    one another is demanded.  A REJECTED call creates no alias: G.check_rejected demands that it changes nothing."""
+    from flatland.schema.base import Slot
     op = info.get("op")
 
     def fail(clause, expected, observed):
-        fails.append({"clause": clause, "expected": expected, "observed": observed, "step": info["i"], "op": op})
+        fails.append({"clause": clause, "expected": expected, "observed": observed, "step": info["i"], "op": op,
+                      "tree": tree_no})
 
     # expected ancestors of every reachable element, from the children structure
     anc = {id(root): []}
@@ -53,7 +67,8 @@ def check(ex, info):
         for e in level:
             for c in ex.children(e):
                 if id(c) in seen:
-                    dup = True
+                    if id(c) not in ex.taint:
+                        dup = True
                     continue
                 seen.add(id(c))
                 anc[id(c)] = [e] + anc[id(e)]
@@ -68,6 +83,16 @@ def check(ex, info):
             fail("children-are-elements", "Element", type(e).__name__)
             break
         chain = ex.parents(e)
+        if ex.taint and (id(e) in ex.taint or any(id(a) in ex.taint for a in anc[id(e)])):
+            # aliased: listed by two containers; only self-consistency
+            path = list(itertools.islice(e.path, G.CHAIN_BOUND + 1))
+            top = chain[-1] if chain else e
+            want_path = list(reversed(chain)) + [e]
+            if e.root is not top or len(path) != len(want_path) or any(a is not b for a, b in zip(path, want_path)):
+                fail("root-parents-path-agree", {"root": ex.lab(top), "path": [ex.lab(x) for x in want_path]},
+                     {"root": ex.lab(e.root), "path": [ex.lab(x) for x in path]})
+                break
+            continue
         visible = [p for p in chain if not isinstance(p, Slot)]
         want = anc[id(e)]
         if len(visible) != len(want) or any(a is not b for a, b in zip(visible, want)):
@@ -101,6 +126,16 @@ def check(ex, info):
     want = order[1:]
     if len(ac) != len(want) or any(a is not b for a, b in zip(ac, want)):
         fail("all_children-breadth-first-once", [ex.lab(x) for x in want], [ex.lab(x) for x in ac])
+
+
+def check_call(ex, info, fails):
+    from flatland.schema.base import Slot, Element
+    op = info.get("op")
+    root = ex.root
+
+    def fail(clause, expected, observed):
+        fails.append({"clause": clause, "expected": expected, "observed": observed, "step": info["i"], "op": op})
+
     # detached elements (popped / deleted / replaced members waiting in the pool): C08 promises nothing about where
     # their stale parent pointer leads — only that they are unreachable — but reading them must work and root, parents
     # and path must agree with one another (a popped List member's root is its orphaned ListSlot)
@@ -130,9 +165,11 @@ def check(ex, info):
         if op["op"] == "pop" and isinstance(ret, tuple):
             r = ret[1]
             r = getattr(r, "element", r) if isinstance(r, Slot) else r
-            if id(r) in below:
+            if id(r) in below and id(r) not in info.get("tainted", ()):      # (an aliased element may be listed once more)
                 fail("removed-is-unreachable", "popped element not under the container", "still reachable")
         for old in info.get("before_children") or []:
+            if id(old) in info.get("tainted", ()):
+                continue        # aliased: another container below the target may list it too
             if not any(c is old for c in now) and id(old) in below:
                 fail("removed-is-unreachable", "removed element not under the container", "still reachable")
                 break
@@ -160,10 +197,12 @@ def check(ex, info):
                 if not vis or vis[0] is not target:
                     fail("placed-is-child", "argument's parent is the container", ex.lab(vis[0]) if vis else None)
                     break
-    return fails
 
 
 # ---------------------------------------------------------------- the property
+
+FAILURE_PATH_SHARE = 0.3
+
 
 def _sc(cid, k, name=None, default=None, opt=False):
     return {"cid": cid, "k": k, "name": name, "opt": opt, "policy": "subset", "minreq": False, "isa": [],
@@ -178,7 +217,7 @@ def _cont(cid, k, subs, name=None, default=None, policy="subset", minreq=False):
 class C08(Property):
     id = "C08"
     title = "The element tree stays a tree: parent, children, root and path agree"
-    proof_module = "Proofs.C08TreeExamples"
+    proof_module = "Proofs.C08Rejected"
     theorems = [
         "Flatland.C08.Proofs.c08_full",
         "Flatland.C08.Proofs.inv_init",
@@ -214,6 +253,13 @@ class C08(Property):
         "Flatland.C08.Proofs.seqStep_placed",
         "Flatland.C08.Proofs.mapSetItem_placed",
         "Flatland.C08.Proofs.mapUpdateArgs_placed",
+        # failure paths: a rejected call of the model changes nothing (round h8)
+        "Flatland.C08.Proofs.rejected_step_unchanged",
+        "Flatland.C08.Proofs.rejected_node_unchanged",
+        "Flatland.C08.Proofs.rejected_seq_unchanged",
+        "Flatland.C08.Proofs.rejected_map_unchanged",
+        "Flatland.C08.Proofs.extend_keeps_prefix",
+        "Flatland.C08.Proofs.setitem_plain_sets_in_place",
         # the added hypotheses are needed (negation witnesses on the model)
         "Flatland.C08.Proofs.uniqueIds_needs_keys",
         "Flatland.C08.Proofs.uniqueIds_needs_below",
@@ -242,7 +288,14 @@ class C08(Property):
                   "of the declared field class, for update the one given last per key) is afterwards a direct child of the "
                   "target with the same identity and subtree, its stored parent pointer designating the container (through a "
                   "slot that the List lists and that points to the List). HYPOTHESES beyond the property text, each with a "
-                  "negation witness: keys unique in every mapping node and mapping class (kok, decidable, preserved: the "
+                  "negation witness (see below). FAILURE PATHS (round h8): rejected_step_unchanged — a call of the model on a rejection "
+                  "route (seqAtomic / mapAtomic = g1common.atomic_route: everything but extend/+=/*=/update/|=/set/set_default, "
+                  "an in-place `lst[i] = plain` with a valid index, assignment of a present/declared key, key-less sort; "
+                  "witnesses extend_keeps_prefix, setitem_plain_sets_in_place) that raises returns the WHOLE tree as it was — "
+                  "structure, identities, stored parents, slot names — and reports nothing as detached; tied to the code by the "
+                  "rejected calls with plain / fresh / pooled arguments in the compared histories and, for live arguments "
+                  "(members of a live tree handed in: aliasing, not representable in the model), by the oracle clause "
+                  "rejected-changes-nothing on every kept tree. Hypotheses: keys unique in every mapping node and mapping class (kok, decidable, preserved: the "
                   "model's dict assignment overwrites every child under the key — uniqueIds_needs_keys), arguments below the "
                   "counter (uniqueIds_needs_below), no aliasing (uniqueIds_needs_fresh). ORACLE ONLY: set_flat/from_flat/"
                   "from_object routes; Compound/JoinedString nodes; model paths answering `unsupported`")
@@ -252,7 +305,16 @@ class C08(Property):
         "CPython list/dict semantics as in lean/Flatland/PyList.lean (shared with C09/C10)",
     ]
     assumptions = [
-        "Element arguments are fresh or detached elements; an Element that is already in the tree handed in again "
+        "LIVE Element arguments (round h8, oracle only): a current member of the same container, of another container or of "
+        "a second tree the case keeps alive is handed to item / slice assignment, insert, append, extend, +=, update, |=. "
+        "A REJECTED call must change nothing on any kept tree (rejected-changes-nothing; the unchanged library violates "
+        "it on the routes of KF-C08-b). A SUCCESSFUL one makes the element a child of the target (placed-is-child); the "
+        "library does not take it out of its old container (`b.append(a[1])` leaves a[1] listed by a, its parent pointing "
+        "into b): the property text neither says that placing removes nor can a parent pointer designate two holders, so "
+        "for such ALIASED elements and what hangs below them only the agreement of root / parents / path with one another "
+        "is asserted until one container lists them again (Exec.heal); every other element of every kept tree is under "
+        "the full clauses",
+        "Element arguments of the THEOREMS are fresh or detached elements; an Element that is already in the tree handed in again "
         "(`l.append(l[0])`) is aliasing that no tree can represent and is outside the quantifier: the theorems state it "
         "as `ArgsFresh` (identities of the placed arguments disjoint from the tree and from one another, below the "
         "allocation counter) and `ArgWP` (internally well-parented); uniqueness of identities is then a proved invariant",
@@ -275,7 +337,7 @@ class C08(Property):
             "(sequence op or mapping op according to its kind), with plain values, fresh Elements and Elements "
             "detached by earlier calls or owned by another container; cases the Lean model does not cover (flat routes, "
             "model paths answering unsupported) are marked oracle-only before the run and are not counted as validated "
-            "traces (tag model=oracle-only); Reading is part of the history: Element arguments (fresh, foreign-owned, pooled, populated subtrees) have root/path/parents/fq_name READ before they are handed over in half of the cases, and 'observe' steps read every reachable and every detached element; 15 % of nested mapping classes are derived from an already used parent class with another field list. non-trivial = the tree has at least 4 elements at some point and at least 3 "
+            "traces (tag model=oracle-only); Reading is part of the history: Element arguments (fresh, foreign-owned, pooled, populated subtrees) have root/path/parents/fq_name READ before they are handed over in half of the cases, and 'observe' steps read every reachable and every detached element; 15 % of nested mapping classes are derived from an already used parent class with another field list. 30 % of the histories (tag fp:case, oracle only) exercise FAILURE / RECOVERY paths: a second tree of the root class kept alive (75 %), a third of the calls aimed at it, live members of either tree (same container / another container / other tree; 10 % of any class) as arguments of item and slice assignment, insert, append, extend, +=, mapping item assignment and update, rejected calls (out-of-range and non-integer indexes, extended-slice size mismatches, items the member schema rejects, undeclared keys, a sort key that raises) with plain, fresh, pooled and live arguments, each followed by the full observation of every kept tree and by calls that succeed; non-trivial = the tree has at least 4 elements at some point and at least 3 "
             "calls changed it")
     quick_n = 30000
     thorough_n = 250000
@@ -335,6 +397,53 @@ class C08(Property):
                             {"t": 2, "s": {"op": "append", "a": {"new": "q", "touch": True}}, "m": {"op": "observe"}},
                             {"t": 0, "s": {"op": "pop", "i": 0}}, {"t": 0, "s": {"op": "observe"}},
                             {"t": 0, "s": {"op": "append", "a": {"pool": 0, "touch": True}}}]})
+        # failure paths (round h8; oracle only).  Seeded mutation C08-setitem-reparents-before-index-check: a REJECTED
+        # `dst[9] = src[1]` / `dst['1'] = src[1]` (dst a List of the second tree, src the main List; then inside ONE
+        # list) must leave both trees as they were; the history goes on with calls that succeed
+        nums = _cont(1, "list", [_sc(2, "integer", "n")], name="numbers")
+        lv = lambda tree, k, where="any": {"live": {"tree": tree, "k": k, "where": where}}
+        out.append({"schema": nums, "nomodel": True, "aux": [{"value": {"l": [10, 20]}}],
+                    "init": {"route": "ctor_value", "value": {"l": [1, 2, 3]}},
+                    "ops": [{"t": 0, "tt": 1, "s": {"op": "setitem", "i": 1, "a": {"new": 99}}},
+                            {"t": 0, "tt": 1, "s": {"op": "setitem", "i": 7, "a": lv(0, 0)}},
+                            {"t": 0, "tt": 1, "s": {"op": "setitem", "i": 1, "ix": "str", "a": lv(0, 1)}},
+                            {"t": 0, "s": {"op": "setitem", "i": 9, "a": lv(0, 1, "same")}},
+                            {"t": 0, "s": {"op": "setitem", "i": -9, "a": {"new": 5, "touch": True}}},
+                            {"t": 0, "s": {"op": "sort", "key": "raise", "rev": False}},
+                            {"t": 0, "s": {"op": "append", "a": {"v": 4}}},
+                            {"t": 0, "tt": 1, "s": {"op": "pop", "i": 0}},
+                            {"t": 0, "s": {"op": "observe"}}]})
+        # open KF-C08-b: rejected placements that re-parent a live argument on the UNCHANGED library — Array item
+        # assignment out of range, insert with an index that is no integer (Array and List), extended-slice size mismatch
+        arr = _cont(1, "array", [_sc(2, "integer", "n")], name="arr")
+        out.append({"schema": arr, "nomodel": True, "aux": [{"value": {"l": [10, 20]}}],
+                    "init": {"route": "ctor_value", "value": {"l": [1, 2, 3]}},
+                    "ops": [{"t": 0, "tt": 1, "s": {"op": "setitem", "i": 9, "a": lv(0, 1)}},
+                            {"t": 0, "s": {"op": "append", "a": {"v": 4}}}]})
+        out.append({"schema": arr, "nomodel": True, "aux": [{"value": {"l": [10, 20]}}],
+                    "init": {"route": "ctor_value", "value": {"l": [1, 2, 3]}},
+                    "ops": [{"t": 0, "tt": 1, "s": {"op": "insert", "i": 0, "ix": "str", "a": lv(0, 1)}}]})
+        out.append({"schema": nums, "nomodel": True, "aux": [{"value": {"l": [10, 20, 30, 40]}}],
+                    "init": {"route": "ctor_value", "value": {"l": [1, 2, 3]}},
+                    "ops": [{"t": 0, "tt": 1, "s": {"op": "insert", "i": 0, "ix": "none", "a": lv(0, 1)}},
+                            {"t": 0, "tt": 1, "s": {"op": "setslice", "sl": [None, None, 2], "as": [lv(0, 2)]}},
+                            {"t": 0, "s": {"op": "append", "a": {"v": 4}}}]})
+        # a SUCCESSFUL move of a live member (aliasing: the old List still lists it), then it is taken out of the old
+        # List (one holder again: the full clauses apply), and a rejected mapping assignment with a live argument
+        out.append({"schema": nums, "nomodel": True, "aux": [{"value": {"l": [10, 20]}}],
+                    "init": {"route": "ctor_value", "value": {"l": [1, 2, 3]}},
+                    "ops": [{"t": 0, "tt": 1, "s": {"op": "append", "a": lv(0, 1)}},
+                            {"t": 0, "s": {"op": "delitem", "i": 1}},
+                            {"t": 0, "tt": 1, "s": {"op": "reverse"}},
+                            {"t": 0, "s": {"op": "extend", "as": [lv(1, 0), {"v": 7}]}},
+                            {"t": 0, "s": {"op": "observe"}}]})
+        sp = _cont(1, "sparse", [_sc(2, "integer", "a"), _sc(3, "integer", "b")])
+        out.append({"schema": sp, "nomodel": True, "aux": [{"value": {"d": [["a", 5]]}}],
+                    "init": {"route": "ctor_value", "value": {"d": [["a", 1]]}},
+                    "ops": [{"t": 0, "tt": 1, "m": {"op": "setitem", "k": "zz", "a": lv(0, 0)}},
+                            {"t": 0, "tt": 1, "m": {"op": "update_items", "form": "pairs", "items": [["a", lv(0, 0)], ["zz", {"v": 3}]]}},
+                            {"t": 0, "m": {"op": "setdefault", "k": "q", "d": 1}},
+                            {"t": 0, "m": {"op": "setitem", "k": "b", "a": {"v": 2}}}]})
         # oracle-only construction routes
         out.append({"schema": _cont(1, "list", [_cont(2, "dict", [_sc(3, "integer", "x")])], name="l"),
                     "init": {"route": "from_flat", "pairs": [["l_0_x", "1"], ["l_2_x", "2"], ["l_1_x", "z"]]},
@@ -400,6 +509,9 @@ class C08(Property):
             case["ops"] = ops
             if G.has_flat(case):
                 case["nomodel"] = True
+            if rng.random() < FAILURE_PATH_SHARE and schema["k"] in G.SEQ_KINDS + G.MAP_KINDS:
+                # failure / recovery paths (oracle only): a second tree, live members as arguments, rejected calls
+                G.inject_failure_paths(rng, case, schema, any_class=True)
             yield case
 
     def _run(self, case):
@@ -422,6 +534,11 @@ class C08(Property):
             return None
         return super().compare(impl_obs, model_obs)
 
+    def classify(self, case, failure):
+        if G.rejected_placement_reparents(case, failure):
+            return "KF-C08-b"
+        return None
+
     def nontrivial(self, case, obs):
         if any("view_raises" in st["view"] for st in obs["steps"]):
             return True
@@ -438,7 +555,8 @@ class C08(Property):
         steps = obs["steps"]
         t.append("maxsize=%d" % min(30, max(len(s["view"]["els"]) for s in steps)))
         t.append("maxdepth=%d" % max(len(r[1]) for s in steps for r in s["view"]["els"]))
-        for o, st in zip(case["ops"], steps[1:]):
+        fps = obs.get("_fp") or [None] * len(steps)
+        for idx, (o, st) in enumerate(zip(case["ops"], steps[1:]), 1):
             out = st["out"]
             if isinstance(out, dict) and "skip" in out:
                 t.append("skip:" + out["skip"].split(":")[0])
@@ -450,6 +568,30 @@ class C08(Property):
                 t.append("raised:" + out["exc"])
             if st["view"]["placed"]:
                 t.append("element-arg:" + ("placed" if all(st["view"]["placed"]) else "not-placed"))
+            fp = fps[idx]
+            if fp:
+                if fp["raised"]:
+                    t.append("fp:rejected:%s" % fp["route"] if fp["route"] else "fp:raised-after-effects")
+                    if fp["live"]:
+                        t.append("fp:live-arg:rejected" if fp["route"] else "fp:live-arg:raised-after-effects")
+                    else:
+                        t.append("fp:no-live-arg:rejected" if fp["route"] else "fp:no-live-arg:raised-after-effects")
+                elif fp["live"]:
+                    t.append("fp:live-arg:moved" if fp["moved"] else "fp:live-arg:ok-not-placed")
+                    if fp["aliased"]:
+                        t.append("fp:live-arg:old-container-still-lists-it")
+                if fp["tree"]:
+                    t.append("fp:target-in-second-tree")
+                if fp["taint"]:
+                    t.append("fp:aliased-elements-present")
+        if case.get("aux"):
+            t.append("fp:second-tree")
+        if G.has_failure_paths(case):
+            t.append("fp:case")
+            # a rejected call followed by a call that changes the tree again
+            rej = [i for i, fp in enumerate(fps) if fp and fp["raised"] and fp["route"]]
+            if rej and any(a["view"]["els"] != b["view"]["els"] for a, b in zip(steps[rej[0]:], steps[rej[0] + 1:])):
+                t.append("fp:rejected-then-changed")
         for o in case["ops"]:
             for part in ("s", "m"):
                 if part in o:
